@@ -11,8 +11,19 @@ import ast
 from sa.core import rule, AnalysisError
 from sa.pyindex import get_module, dotted, src, calls_in, all_py_files, walk_no_nested
 from rules import _schema as S
+from rules import _util_c12c17c18 as U
 
 BQ = "pytype/pytd/booleq.py"
+
+
+def _vmod(ctx):
+  """booleq.py with module-local inheritance flattened (a method `_And`
+  inherits from a base class defined in the file is `_And`'s) and module-local
+  helpers of the constructors inlined (`_And._build(exprs)` is the
+  simplify_exprs call it returns).  simplify_exprs itself is the primitive
+  the rules reason about and is never inlined."""
+  return U.virtual(ctx, BQ, inline=("And", "Or", "_And.simplify", "_Or.simplify"),
+                   keep=("simplify_exprs",), flatten=True)
 
 EXPLANATION = (
     "Schema match of pytype/pytd/booleq.py, obligation by obligation, against "
@@ -291,6 +302,15 @@ def _combinator_call(mod, qual, roles):
   bound = dict(zip(S.params_of(mod.func("simplify_exprs")), call.args))
   for k in call.keywords:
     bound[k.arg] = k.value
+  for r, v in list(bound.items()):
+    # `_And._STOP_TERM`: a class-level constant, read through the local MRO
+    if isinstance(v, ast.Attribute) and isinstance(v.value, ast.Name) and \
+        v.value.id in mod.classes:
+      c = U.class_const(mod, v.value.id, v.attr)
+      if c is None:
+        raise AnalysisError(
+            f"{qual}: `{src(v)}` is not a class constant bound once in the file")
+      bound[r] = c
   try:
     return fn, call, [bound[r] for r in roles]
   except KeyError as e:
@@ -408,7 +428,7 @@ def _pivot_schema(mod, clsname):
 @rule("R17.2", "C17", floor=14)
 def r17_2(ctx):
   """And/Or families instantiate the combinator as mirror images."""
-  mod = get_module(ctx, BQ)
+  mod = _vmod(ctx)
   roles = _roles(mod.func("simplify_exprs"))
   for nm in ("TRUE", "FALSE"):
     if nm not in mod.assigns:
@@ -496,10 +516,6 @@ def r17_3(ctx):
   if len(ps) != 2:
     raise AnalysisError(f"Eq has parameters {ps}")
   l, r = ps
-  sym = S.Sym(mod, fn)
-  if sym.counts.get(l) or sym.counts.get(r):
-    raise AnalysisError("Eq rebinds its parameters")
-  paths = S.return_paths(mod, fn, sym)
   worlds = {"lt": (0, 1), "eq": (1, 1), "gt": (1, 0)}
 
   def order_atom(w):
@@ -513,7 +529,16 @@ def r17_3(ctx):
       return None
     return atom
 
-  table = S.decide(paths, list(worlds), order_atom)
+  # Eq is run once per order of its two arguments: every test is decided from
+  # the order, values stay expressions over the arguments as passed in - so a
+  # conditional swap (`if not left > right: left, right = right, left`) and an
+  # if/elif/else with two constructor calls are the same thing
+  table = {}
+  for w in worlds:
+    tr = U.run_world(fn.body, {}, order_atom(w), where="Eq")
+    if tr.kind != "return":
+      raise AnalysisError(f"Eq: no return reached for {w}")
+    table[w] = (tr.stmt, tr.value, tr.tests)
 
   def eq_kind(v, w):
     s = src(v)
@@ -526,6 +551,8 @@ def r17_3(ctx):
       alt = (f"max({r}, {l})", f"min({r}, {l})")
       if (a in (mx, alt[0])) and (b in (mn, alt[1])):
         return "_Eq(max, min)"
+      if a == b and a in (l, r):
+        return "_Eq(same, same)"
       if {a, b} == {l, r}:
         hi = l if worlds[w][0] > worlds[w][1] else r
         if worlds[w][0] == worlds[w][1]:
@@ -754,7 +781,7 @@ def _derived(e, p, qual):
 @rule("R17.4", "C17", floor=7)
 def r17_4(ctx):
   """eq/hash law for _Eq/_And/_Or; _expr_set_hash is order-insensitive."""
-  mod = get_module(ctx, BQ)
+  mod = _vmod(ctx)
   uses_set_hash = []
   for clsname in ("_Eq", "_And", "_Or"):
     ms = mod.methods(clsname)
@@ -830,7 +857,7 @@ _ANCHORED = (BQ, "pytype/pytd/type_match.py", "pytype/convert_structural.py")
 @rule("R17.5", "C17", floor=5)
 def r17_5(ctx):
   """TRUE/FALSE are singletons (absorption is tested by identity) and fixpoints."""
-  mod = get_module(ctx, BQ)
+  mod = _vmod(ctx)
   for cname, const in (("TrueValue", "TRUE"), ("FalseValue", "FALSE")):
     ms = mod.methods(cname)
     if "__eq__" in ms or "__hash__" in ms:
@@ -884,7 +911,7 @@ def r17_5(ctx):
 @rule("R17.6", "C17", floor=4)
 def r17_6(ctx):
   """Term constructors store each argument in the field of the same name."""
-  mod = get_module(ctx, BQ)
+  mod = _vmod(ctx)
   for clsname, fields in (("_Eq", ("left", "right")), ("_And", ("exprs",)),
                           ("_Or", ("exprs",))):
     fn = mod.func(f"{clsname}.__init__")
@@ -1087,6 +1114,52 @@ _FINAL = (
 _AND_PIV = "          pivots[name] = pivots[name] & values\n"
 _OR_PIV = "          pivots[name] = pivots[name] | values\n"
 
+_EQ_TAIL = ("  elif left > right:\n    return _Eq(left, right)\n  else:\n"
+            "    return _Eq(right, left)  # pylint: disable=arguments-out-of-order")
+_AND_HEAD = ("  External code should use And rather than creating an _And instance directly.\n"
+             "  \"\"\"\n\n  __slots__ = (\"exprs\",)\n")
+_AND_SIMPLIFY = ("    return simplify_exprs(\n"
+                 "        (e.simplify(assignments) for e in self.exprs), _And, FALSE, TRUE\n"
+                 "    )\n")
+_AND_EQ = ("  def __eq__(self, other):\n"
+           "    return self.__class__ == other.__class__ and self.exprs == other.exprs\n\n"
+           "  def __repr__(self):\n    return f\"And(")
+_AND_HASH = ("    return \"(\" + \" & \".join(str(t) for t in self.exprs) + \")\"\n\n"
+             "  def __hash__(self):\n    return _expr_set_hash(self.exprs)\n")
+
+
+def _and_build(stop, skip, members="e.simplify(assignments) for e in self.exprs"):
+  """_And rewritten to build itself through a classmethod over class constants."""
+  return [
+      (BQ, _AND_HEAD, _AND_HEAD +
+       f"\n  _STOP_TERM = {stop}\n  _SKIP_TERM = {skip}\n\n"
+       "  @classmethod\n  def _build(cls, exprs):\n"
+       "    return simplify_exprs(exprs, cls, cls._STOP_TERM, cls._SKIP_TERM)\n"),
+      (BQ, _AND_SIMPLIFY, f"    return self._build({members})\n"),
+      (BQ, "  return simplify_exprs(exprs, _And, FALSE, TRUE)",
+       "  return _And._build(exprs)"),
+  ]
+
+
+def _and_base(eq_body, hash_body="    return _expr_set_hash(self.exprs)\n"):
+  """_And inheriting __init__/__eq__/__hash__ from a base class of the file."""
+  return [
+      (BQ, "class _And(BooleanTerm):",
+       "class _Junction(BooleanTerm):\n"
+       "  __slots__ = (\"exprs\",)\n\n"
+       "  def __init__(self, exprs):\n    self.exprs = exprs\n\n"
+       "  def __eq__(self, other):\n" + eq_body + "\n"
+       "  def __hash__(self):\n" + hash_body + "\n\n"
+       "class _And(_Junction):"),
+      (BQ, _AND_EQ, "  def __repr__(self):\n    return f\"And("),
+      (BQ, _AND_HASH,
+       "    return \"(\" + \" & \".join(str(t) for t in self.exprs) + \")\"\n"),
+      (BQ, "  def __init__(self, exprs):\n    \"\"\"Initialize a conjunction.\n\n"
+           "    Args:\n      exprs: A set. The subterms.\n    \"\"\"\n"
+           "    self.exprs = exprs\n\n", ""),
+  ]
+
+
 VARIANTS = [
     # R17.1
     {"name": "absorb-returns-identity", "rule": "R17.1", "file": BQ, "expect": "fire",
@@ -1183,7 +1256,35 @@ VARIANTS = [
      "old": _OR_PIV, "new": "          pivots[name] |= values\n"},
     {"name": "twin-pivots-commuted", "rule": "R17.2", "file": BQ, "expect": "silent",
      "old": _AND_PIV, "new": "          pivots[name] = values & pivots[name]\n"},
+    {"name": "twin-benign-C17-r2-junction-base", "rule": "R17.2",
+     "patch": "benign/C17-r2/patch.diff", "expect": "silent"},
+    {"name": "twin-And-built-through-classmethod", "rule": "R17.2", "expect": "silent",
+     "edits": _and_build("FALSE", "TRUE")},
+    {"name": "classmethod-builder-constants-swapped", "rule": "R17.2", "expect": "fire",
+     "edits": _and_build("TRUE", "FALSE")},
+    {"name": "classmethod-builder-members-not-simplified", "rule": "R17.2", "expect": "fire",
+     "edits": _and_build("FALSE", "TRUE", members="e for e in self.exprs")},
+    {"name": "classmethod-builder-of-the-other-class", "rule": "R17.2", "expect": "fire",
+     "edits": _and_build("FALSE", "TRUE")[:2] + [
+         (BQ, "  return simplify_exprs(exprs, _And, FALSE, TRUE)",
+          "  return _And._build(exprs)"),
+         (BQ, "  return simplify_exprs(exprs, _Or, TRUE, FALSE)",
+          "  return _And._build(exprs)")]},
     # R17.3
+    {"name": "twin-benign-C17-r1-swap-then-construct", "rule": "R17.3",
+     "patch": "benign/C17-r1/patch.diff", "expect": "silent"},
+    {"name": "twin-Eq-conditional-swap", "rule": "R17.3", "file": BQ, "expect": "silent",
+     "old": _EQ_TAIL,
+     "new": "  if not left > right:\n    left, right = right, left\n  return _Eq(left, right)"},
+    {"name": "twin-Eq-swap-through-temporaries", "rule": "R17.3", "file": BQ, "expect": "silent",
+     "old": _EQ_TAIL,
+     "new": "  hi, lo = left, right\n  if hi < lo:\n    hi, lo = lo, hi\n  return _Eq(hi, lo)"},
+    {"name": "Eq-conditional-swap-inverted", "rule": "R17.3", "file": BQ, "expect": "fire",
+     "old": _EQ_TAIL,
+     "new": "  if left > right:\n    left, right = right, left\n  return _Eq(left, right)"},
+    {"name": "Eq-swap-only-one-side", "rule": "R17.3", "file": BQ, "expect": "fire",
+     "old": _EQ_TAIL,
+     "new": "  if not left > right:\n    left = right\n  return _Eq(left, right)"},
     {"name": "Eq-TRUE-on-ge", "rule": "R17.3", "file": BQ, "expect": "fire",
      "old": "  if left == right:\n    return TRUE", "new": "  if left >= right:\n    return TRUE"},
     {"name": "Eq-unordered", "rule": "R17.3", "file": BQ, "expect": "fire",
@@ -1238,6 +1339,22 @@ VARIANTS = [
     {"name": "twin-frozenset-hash", "rule": "R17.4", "file": BQ, "expect": "silent",
      "old": "  return hash(tuple(sorted(hash(e) for e in expr_set)))",
      "new": "  return hash(frozenset(expr_set))"},
+    {"name": "twin-benign-C17-r2-eq-hash-inherited", "rule": "R17.4",
+     "patch": "benign/C17-r2/patch.diff", "expect": "silent"},
+    {"name": "twin-_And-inherits-eq-hash-from-local-base", "rule": "R17.4", "expect": "silent",
+     "edits": _and_base(
+         "    return self.__class__ == other.__class__ and self.exprs == other.exprs\n")},
+    {"name": "local-base-eq-tests-class-last", "rule": "R17.4", "expect": "fire",
+     "edits": _and_base(
+         "    return self.exprs == other.exprs and self.__class__ == other.__class__\n")},
+    {"name": "local-base-hashes-uncompared-field", "rule": "R17.4", "expect": "fire",
+     "edits": _and_base(
+         "    return self.__class__ == other.__class__ and self.exprs == other.exprs\n",
+         "    return hash((self.exprs, self.origin))\n")},
+    {"name": "local-base-init-stores-elsewhere", "rule": "R17.6", "expect": "fire",
+     "edits": [(f, o, n.replace("    self.exprs = exprs\n", "    self.exprs = frozenset()\n"))
+               for f, o, n in _and_base(
+                   "    return self.__class__ == other.__class__ and self.exprs == other.exprs\n")]},
     # R17.5
     {"name": "second-TRUE-instance", "rule": "R17.5", "file": BQ, "expect": "fire",
      "old": "    self.ground_truth = TRUE\n    self.assignments = None",
